@@ -166,6 +166,10 @@ class _FuncInline(SiteRewriter):
             self.gensym.reserve(*def_use.names())
         else:
             ast = e.fn.ast
+            # the callee's free variables stay as they are in the spliced body:
+            # they are off limits for the names made up from here on (the
+            # result temporary `t`, the renamed locals of a callee spliced later)
+            self.gensym.reserve(*ast.free_vars)
 
         # one trailing return, as `_refuses` established of the callee before
         # this site was counted; recursive inlining preserves it
